@@ -1200,4 +1200,15 @@ theorem seq_assembly {S : Schema} {tn : String} {decl : List AttrP} {mixed : Boo
   rw [validNode_complex hl ha hm]
   exact hf.valid
 
+/-- an injective-on-the-list map: no two elements of the list have the same image -/
+theorem nodup_map_inj {α β} {f : α → β} : ∀ {l : List α}, (l.map f).Nodup → ∀ {x y}, x ∈ l → y ∈ l → f x = f y → x = y
+  | [], _, _, _, hx, _, _ => by cases hx
+  | a :: as, hnd, x, y, hx, hy, hxy => by
+    rw [List.map_cons, List.nodup_cons] at hnd
+    rcases List.mem_cons.mp hx with rfl | hx' <;> rcases List.mem_cons.mp hy with rfl | hy'
+    · rfl
+    · exact absurd (List.mem_map.mpr ⟨y, hy', hxy.symm⟩) hnd.1
+    · exact absurd (List.mem_map.mpr ⟨x, hx', hxy⟩) hnd.1
+    · exact nodup_map_inj hnd.2 hx' hy' hxy
+
 end CR.Xsd
